@@ -26,4 +26,11 @@ C.update(
 )
 
 def run(tier, replay=None):
+    if not replay:
+        from lib import vlib
+        # negative control: a failed batch written again after the pause must leave the contract
+        r = vlib.run_tlc("Checkpoint_MC", "Checkpoint_MC_2_retry.cfg", workers=2, timeout=300)
+        if "QuietAfterPause" not in r.violated:
+            raise vlib.Inconclusive("Checkpoint_MC_2_retry.cfg no longer violates QuietAfterPause: the model's failure path is vacuous")
+        vlib.log("[tlc] Checkpoint_MC/Checkpoint_MC_2_retry.cfg: violates QuietAfterPause as expected")
     return flow.standard_flow(C, tier, replay)
